@@ -239,32 +239,69 @@ Proof.
 Qed.
 
 (* ------------------------------------------------------------------ semantic signedness *)
-Lemma fworlds_nokeys hs abs rel f : In f (fworlds [] hs abs rel) -> fw_keys f = [].
+Lemma countb_map_mono {A} (f g : A -> bool) l :
+  (forall x, In x l -> f x = true -> g x = true) -> countb (map f l) <= countb (map g l).
 Proof.
-  unfold fworlds. cbn [sublists flat_map]. rewrite app_nil_r. intro H.
-  apply in_flat_map in H as (H0 & _ & H). apply in_flat_map in H as (l & _ & H).
-  apply in_map_iff in H as (s & <- & _). reflexivity.
+  induction l as [|x r IH]; intro H; cbn [map countb]; [lia|].
+  assert (Hr : countb (map f r) <= countb (map g r)) by (apply IH; intros; apply H; [right|]; assumption).
+  pose proof (H x (or_introl eq_refl)) as Hx.
+  destruct (f x), (g x); try lia; specialize (Hx eq_refl); discriminate.
+Qed.
+
+(* truth tables are monotone in the keys and the preimages *)
+Lemma evals_mono W1 W2 p :
+  (forall k, In k (keys_s p) -> w_key W1 k = true -> w_key W2 k = true) ->
+  (forall hk h, In (hk, h) (hashes_s p) -> w_pre W1 hk h = true -> w_pre W2 hk h = true) ->
+  (forall t, In t (abs_s p) -> abs_met W1 t = abs_met W2 t) ->
+  (forall t, In t (rel_s p) -> rel_met W1 t = rel_met W2 t) ->
+  evals W1 p = true -> evals W2 p = true.
+Proof.
+  induction p using spolicy_ind'; cbn [evals keys_s hashes_s abs_s rel_s]; intros HK HH HA HO He;
+    try exact He; try discriminate.
+  - apply HK; [left; reflexivity | exact He].
+  - rewrite <- HA; [exact He | left; reflexivity].
+  - rewrite <- HO; [exact He | left; reflexivity].
+  - apply HH; [left; reflexivity | exact He].
+  - apply N.leb_le in He. apply N.leb_le.
+    assert (countb (map (evals W1) l) <= countb (map (evals W2) l)); [|lia].
+    apply countb_map_mono. intros x Hx Hx1. rewrite Forall_forall in H. apply (H x Hx); auto; intros.
+    + apply HK; [apply in_flat_map; eauto | assumption].
+    + apply HH; [apply in_flat_map; eauto | assumption].
+    + apply HA. apply in_flat_map. eauto.
+    + apply HO. apply in_flat_map. eauto.
+Qed.
+
+Lemma sigless_nokeys p f : In f (sigless_worlds p) -> fw_keys f = [] /\ fw_hashes f = hashes_s p.
+Proof.
+  unfold sigless_worlds. intro H. apply in_flat_map in H as (l & _ & H).
+  apply in_map_iff in H as (s & <- & _). split; reflexivity.
 Qed.
 
 Theorem sem_signedb_ok p :
   sem_signedb p = true <->
   forall W, evals W p = true -> exists k, In k (keys_s p) /\ w_key W k = true.
 Proof.
-  unfold sem_signedb, sigless_worlds. rewrite forallb_forall. split.
+  unfold sem_signedb. rewrite forallb_forall. split.
   - intros H W HW.
     destruct (existsb (w_key W) (keys_s p)) eqn:E.
     + apply existsb_exists in E. exact E.
     + exfalso.
-      set (hs := dedup hatom_eqb (hashes_s p)). set (ab := dedup N.eqb (abs_s p)). set (rl := dedup N.eqb (rel_s p)).
-      specialize (H (canon [] hs ab rl W) (canon_in [] hs ab rl W)).
-      rewrite (canon_agree [] hs ab rl W p), HW in H; [discriminate | | | |].
-      * intros k Hk. right. split; [reflexivity|].
-        destruct (w_key W k) eqn:K; [|reflexivity].
-        assert (existsb (w_key W) (keys_s p) = true) by (apply existsb_exists; eauto). congruence.
-      * intros x Hx. apply (dedup_In hatom_eqb hatom_eqb_spec). exact Hx.
-      * intros x Hx. apply (dedup_In N.eqb N.eqb_eq). exact Hx.
-      * intros x Hx. apply (dedup_In N.eqb N.eqb_eq). exact Hx.
-  - intros H f Hf. apply fworlds_nokeys in Hf.
+      set (ab := dedup N.eqb (abs_s p)). set (rl := dedup N.eqb (rel_s p)).
+      set (f := mkF [] (hashes_s p) (lock_rep ab (w_lock W)) (seq_rep rl (w_seq W))).
+      assert (Hin : In f (sigless_worlds p)).
+      { unfold sigless_worlds. apply in_flat_map. exists (lock_rep ab (w_lock W)). split; [apply lock_rep_spec|].
+        apply in_map_iff. exists (seq_rep rl (w_seq W)). split; [reflexivity | apply seq_rep_in]. }
+      specialize (H f Hin). apply negb_true_iff in H.
+      assert (evals (world_of f) p = true); [|congruence].
+      apply (evals_mono W); [| | | | exact HW].
+      * intros k Hk Hs. assert (existsb (w_key W) (keys_s p) = true) by (apply existsb_exists; eauto). congruence.
+      * intros hk h Hh _. unfold world_of, f; cbn [w_pre fw_hashes].
+        apply (memb_In hatom_eqb hatom_eqb_spec). exact Hh.
+      * intros t Ht. unfold abs_met, world_of, f; cbn [w_lock fw_lock]. symmetry. apply after_ok_rep.
+        apply (dedup_In N.eqb N.eqb_eq). exact Ht.
+      * intros t Ht. unfold rel_met, world_of, f; cbn [w_seq fw_seq]. symmetry. apply older_ok_rep.
+        apply (dedup_In N.eqb N.eqb_eq). exact Ht.
+  - intros H f Hf. apply sigless_nokeys in Hf as [Hf _].
     destruct (evals (world_of f) p) eqn:E; [|reflexivity].
     destruct (H _ E) as (k & _ & Hk). unfold world_of in Hk; cbn [w_key] in Hk. rewrite Hf in Hk. discriminate.
 Qed.
@@ -273,5 +310,5 @@ Lemma find_sigless_sound p f :
   find_sigless p = Some f -> evals (world_of f) p = true /\ forall k, w_key (world_of f) k = false.
 Proof.
   unfold find_sigless. intro H. apply find_some in H as [Hin H]. split; [exact H|].
-  intro k. apply fworlds_nokeys in Hin. unfold world_of; cbn [w_key]. rewrite Hin. reflexivity.
+  intro k. apply sigless_nokeys in Hin as [Hin _]. unfold world_of; cbn [w_key]. rewrite Hin. reflexivity.
 Qed.
